@@ -39,4 +39,5 @@ func main() {
 	genColors()
 	genC14()
 	genWScreen()
+	genKeys()
 }
